@@ -92,7 +92,7 @@ def evaluate(prop, cases, impl, model):
         if d:
             disagreements.append((c, d))
         try:
-            f = prop.oracle(c, parse_out(il) if not prop.multiset else il)
+            f = prop.oracle(c, il if (prop.multiset or getattr(prop, 'raw_oracle', False)) else parse_out(il))
         except Exception as e:  # an oracle that cannot read the output is a failure to report, not to hide
             f = ['oracle could not read the implementation output: %r (%s)' % (e, il[:120])]
         if f:
@@ -269,3 +269,10 @@ register(Prop('C09', 'FramesToFrameRange right-inverse', props.c09_cases, props.
               rule='permutations of small subsets, planted constant-stride runs, zfill 0..6'))
 register(Prop('C11', 'PadFrameRange changes only leading zeros', props.c11_cases, props.c11_oracle,
               rule='valid, malformed and partially invalid range strings x widths -1..8'))
+register(Prop('C03', 'sequence string decomposes losslessly', props.c03_cases, props.c03_oracle,
+              rule='tuples (dir, base, range, pad token, ext, style) drawn from the unambiguous domain'))
+register(Prop('C04', 'Frame / Index yield real paths', props.c04_cases, props.c04_oracle,
+              rule='sequences with probes; concrete single-file paths with zero-padding / sign / extension shapes'))
+register(Prop('C12', 'setters, Copy, Split', props.c12_cases, props.c12_oracle, multiset=False,
+              rule='random setter histories (length <= 8) from both styles, observed in full, plus Copy and Split'))
+PROPS['C12'].raw_oracle = True
